@@ -1839,23 +1839,37 @@ pub fn features(ps: &PStream) -> String {
             }
         }
     }
-    // textual: a line ending in `:` (+ comment) followed by a line starting with a quote
-    let (t, _) = render_lf(ps);
-    let lines: Vec<&str> = t.split('\n').collect();
-    for (i, a) in lines.iter().enumerate() {
-        let a = match a.find(" #") {
-            Some(j) => &a[..j],
-            None => a,
-        };
-        if !a.trim_end_matches(' ').ends_with(':') {
+    // a block mapping key with nothing (or only a comment) after its `:` on the line, followed — after
+    // blank and comment lines — by a line that starts with a quote (token table: no guessing where a
+    // quoted key ends)
+    let (t, toks) = render_lf(ps);
+    let cs: Vec<char> = t.chars().collect();
+    for tok in toks.iter().filter(|k| k.is_key) {
+        let mut i = tok.end;
+        if cs.get(i) != Some(&':') {
             continue;
         }
-        // next line that is neither blank nor a comment
-        let next = lines[i + 1..].iter().map(|l| l.trim_start_matches(' ')).find(|l| !l.is_empty() && !l.starts_with('#'));
-        if let Some(b) = next {
-            if b.starts_with('"') || b.starts_with('\'') {
+        i += 1;
+        let eol = (i..cs.len()).find(|&j| cs[j] == '\n').unwrap_or(cs.len());
+        let rest: String = cs[i..eol].iter().collect();
+        let r = rest.trim_start_matches(' ');
+        if !(r.is_empty() || (rest.starts_with(' ') && r.starts_with('#'))) {
+            continue;
+        }
+        // next content line
+        let mut j = eol + 1;
+        while j < cs.len() {
+            let e = (j..cs.len()).find(|&q| cs[q] == '\n').unwrap_or(cs.len());
+            let line: String = cs[j..e].iter().collect();
+            let l = line.trim_start_matches(' ');
+            if l.is_empty() || l.starts_with('#') {
+                j = e + 1;
+                continue;
+            }
+            if l.starts_with('"') || l.starts_with('\'') {
                 out.push("qkey-after-empty");
             }
+            break;
         }
     }
     if t.contains("]:") || t.contains("}:") {
